@@ -18,16 +18,17 @@ variable {V : Type}
 theorem mem_of_contains {l : List String} {x : String} (h : l.contains x = true) : x ∈ l := by simpa using h
 theorem not_mem_of_contains {l : List String} {x : String} (h : l.contains x = false) : x ∉ l := by simpa using h
 
-/-- parameter lists without defaults are left unchanged by `freezeParams` -/
+/-- parameter lists without type annotations and without defaults are left unchanged by `freezeParams` -/
 theorem freezeParams_no_defaults (look : String → Option V) (s : FState V) (ps : List Param)
-    (hp : ∀ p ∈ ps, p.dflt = none) : freezeParams look s ps = .ok (ps, s) := by
+    (hp : ∀ p ∈ ps, p.dflt = none) (ha : ∀ p ∈ ps, p.ann = none) : freezeParams look s ps = .ok (ps, s) := by
   induction ps generalizing s with
   | nil => simp [freezeParams]
   | cons p rest ih =>
-    obtain ⟨n, d, sp⟩ := p
-    have hd : d = none := by simpa [Param.dflt] using hp (.mk n d sp) (List.mem_cons_self ..)
-    subst hd
-    have := ih s (fun q hq => hp q (List.mem_cons_of_mem _ hq))
+    obtain ⟨n, d, sp, a⟩ := p
+    have hd : d = none := by simpa [Param.dflt] using hp (.mk n d sp a) (List.mem_cons_self ..)
+    have had : a = none := by simpa [Param.ann] using ha (.mk n d sp a) (List.mem_cons_self ..)
+    subst hd had
+    have := ih s (fun q hq => hp q (List.mem_cons_of_mem _ hq)) (fun q hq => ha q (List.mem_cons_of_mem _ hq))
     simp [freezeParams, freezeOpt, this]
 
 /-! ## 1. identifiers: bound names stay, free names are resolved NOW, unknown names fail NOW -/
@@ -129,6 +130,84 @@ theorem freeze_eval_text_untouched (look : String → Option V) (s : FState V) (
     freezeExpr look s (.evalSrc e) = .ok (.evalSrc e, s) := by
   simp [freezeExpr]
 
+/-! ## 3b. parameter type annotations (`\x: t -> …`) are expressions evaluated at call time in the
+closure's scope: `freeze` resolves their free variables like the body's, per parameter the annotation
+first, then the default -/
+
+/-- a free variable in a parameter's type annotation is replaced by its CURRENT value -/
+theorem freezeParams_annotation_free (look : String → Option V) (s : FState V) (x t : String) (sp : Bool)
+    (d : Option Expr) (v : V) (rest : List Param)
+    (h : s.bound.contains t = false) (hv : look t = some v) :
+    freezeParams look s (.mk x d sp (some (.ident t)) :: rest) =
+      (match freezeOpt look { s with tab := s.tab ++ [v] } d with
+       | .error e => .error e
+       | .ok (d', s1) =>
+         match freezeParams look s1 rest with
+         | .error e => .error e
+         | .ok (rest', s2) => .ok (.mk x d' sp (some (.frozen s.tab.length)) :: rest', s2)) := by
+  simp only [freezeParams, freezeOpt, freezeExpr, h, hv, Bool.false_eq_true, ↓reduceIte]
+  rfl
+
+/-- the one-parameter, no-default instance, in closed form -/
+theorem freezeParams_annotation_free_single (look : String → Option V) (s : FState V) (x t : String) (sp : Bool)
+    (v : V) (h : s.bound.contains t = false) (hv : look t = some v) :
+    freezeParams look s [.mk x none sp (some (.ident t))] =
+      .ok ([.mk x none sp (some (.frozen s.tab.length))], { s with tab := s.tab ++ [v] }) := by
+  simp [freezeParams, freezeOpt, freezeExpr, not_mem_of_contains h, hv]
+
+/-- a free variable in a type annotation that does not exist outside makes the freeze fail (name error) -/
+theorem freezeParams_annotation_unbound_fails (look : String → Option V) (s : FState V) (x t : String)
+    (sp : Bool) (d : Option Expr) (rest : List Param)
+    (h : s.bound.contains t = false) (hv : look t = none) :
+    freezeParams look s (.mk x d sp (some (.ident t)) :: rest) = .error (.unboundFree t) := by
+  simp [freezeParams, freezeOpt, freezeExpr, not_mem_of_contains h, hv]
+
+/-- any failure inside an annotation is a failure of the parameter list… -/
+theorem freezeParams_fails_annotation (look : String → Option V) (s : FState V) (x : String) (sp : Bool)
+    (d : Option Expr) (a : Expr) (rest : List Param) (err : FreezeErr)
+    (h : freezeExpr look s a = .error err) :
+    freezeParams look s (.mk x d sp (some a) :: rest) = .error err := by
+  simp [freezeParams, freezeOpt, h]
+
+/-- …and of the lambda, whatever its body is -/
+theorem freeze_lambda_fails_params (look : String → Option V) (s : FState V) (ps : List Param) (body : Expr)
+    (err : FreezeErr)
+    (hp : freezeParams look { s with bound := s.bound ++ ps.map Param.name } ps = .error err) :
+    freezeExpr look s (.lambda ps body) = .error err := by
+  simp [freezeExpr, hp]
+
+/-- per parameter: the annotation is frozen first, then the default (the table is threaded in that order) -/
+theorem freezeParams_annotation_then_default (look : String → Option V) (s s1 s2 s3 : FState V) (x : String)
+    (sp : Bool) (a a' d d' : Expr) (rest rest' : List Param)
+    (ha : freezeExpr look s a = .ok (a', s1)) (hd : freezeExpr look s1 d = .ok (d', s2))
+    (hr : freezeParams look s2 rest = .ok (rest', s3)) :
+    freezeParams look s (.mk x (some d) sp (some a) :: rest) = .ok (.mk x (some d') sp (some a') :: rest', s3) := by
+  simp [freezeParams, freezeOpt, ha, hd, hr]
+
+/-- `freeze \x: t -> body` with `t` a free variable: the annotation of the frozen lambda no longer mentions
+`t` — it is a `Frozen` node holding the value `t` has NOW; the body is frozen after it -/
+theorem freeze_lambda_annotation_resolved (look : String → Option V) (s s3 : FState V) (x t : String) (v : V)
+    (body body' : Expr) (hb : s.bound.contains t = false) (hxt : t ≠ x) (hv : look t = some v)
+    (hbody : freezeExpr look { bound := s.bound ++ [x], tab := s.tab ++ [v] } body = .ok (body', s3)) :
+    freezeExpr look s (.lambda [.mk x none false (some (.ident t))] body) =
+      .ok (.lambda [.mk x none false (some (.frozen s.tab.length))] body', { s with tab := s3.tab }) := by
+  have hb' : (s.bound ++ [x]).contains t = false := by
+    have := not_mem_of_contains hb
+    simp [this, hxt]
+  have hp := freezeParams_annotation_free_single look { bound := s.bound ++ [x], tab := s.tab } x t false v hb' hv
+  simp only [freezeExpr, List.map_cons, List.map_nil, Param.name, hp, hbody]
+
+/-- …and if `t` does not exist the freeze fails at once, although the annotation would only be evaluated
+by a call (which may never happen) -/
+theorem freeze_lambda_annotation_unbound_fails (look : String → Option V) (s : FState V) (x t : String)
+    (body : Expr) (hb : s.bound.contains t = false) (hxt : t ≠ x) (hv : look t = none) :
+    freezeExpr look s (.lambda [.mk x none false (some (.ident t))] body) = .error (.unboundFree t) := by
+  have hb' : (s.bound ++ [x]).contains t = false := by
+    have := not_mem_of_contains hb
+    simp [this, hxt]
+  exact freeze_lambda_fails_params look s _ body _
+    (freezeParams_annotation_unbound_fails look { s with bound := s.bound ++ [x] } x t false none [] hb' hv)
+
 /-! ## 4. failures propagate: if any part fails to freeze, the whole expression fails -/
 
 theorem freeze_op_fails_left (look : String → Option V) (s : FState V) (n : String) (a b : Expr) (err : FreezeErr)
@@ -195,14 +274,33 @@ theorem freeze_unbound_raises (fuel : Nat) (st : State) (env : Nat) (x : String)
 /-- freezing code that assigns to an outer variable raises at freeze time, before anything runs -/
 theorem freeze_assign_outer_raises (fuel : Nat) (st : State) (env : Nat) (x : String) (rhs : Expr) (ps : List Param)
     (hx : (ps.map Param.name).contains x = false)
-    (hp : ∀ p ∈ ps, p.dflt = none) :
+    (hp : ∀ p ∈ ps, p.dflt = none) (ha : ∀ p ∈ ps, p.ann = none) :
     eval (fuel + 1) st env (.freeze (.lambda ps (.assign x rhs))) = (.thrown .err, st) := by
   have hx' : ∀ p ∈ ps, ¬ p.name = x := by
     have := not_mem_of_contains hx
     intro p hpm hn
     exact this (by simpa using ⟨p, hpm, hn⟩)
   have hif : (∀ (p : Param), p ∈ ps → ¬p.name = x) = True := by simp; exact hx'
-  simp [eval, freezeExpr, freezeParams_no_defaults _ _ ps hp, hif]
+  simp [eval, freezeExpr, freezeParams_no_defaults _ _ ps hp ha, hif]
+
+/-- freezing a lambda whose parameter annotation names an unknown variable raises at freeze time -/
+theorem freeze_annotation_unbound_raises (fuel : Nat) (st : State) (env : Nat) (x t : String) (body : Expr)
+    (hv : st.lookup env t = none) (hb : builtinNames.contains t = false) (hxt : t ≠ x) :
+    eval (fuel + 1) st env (.freeze (.lambda [.mk x none false (some (.ident t))] body)) = (.thrown .err, st) := by
+  have hfz : ∀ look' : String → Option Val, look' t = none →
+      freezeExpr look' { bound := [], tab := st.frozenTab } (.lambda [.mk x none false (some (.ident t))] body)
+        = .error (.unboundFree t) :=
+    fun look' hl => freeze_lambda_annotation_unbound_fails look' _ x t body (by simp) hxt hl
+  simp only [eval]
+  rw [hfz _ (by simp [hv, not_mem_of_contains hb])]
+
+/-- at call time the frozen annotation is a table lookup: whatever the outer variables hold by then (any
+`frames'`), in whatever scope, the annotation list of the call evaluates to the type stored at freeze time -/
+theorem frozen_annotation_independent_of_store (fuel : Nat) (st : State) (frames' : Array Frame) (env env' i : Nat)
+    (v : Val) (h : st.frozenTab[i]? = some v) :
+    (evalList (fuel + 2) { st with frames := frames' } env' [.frozen i]).1 = .ok [v] ∧
+    (evalList (fuel + 2) st env [.frozen i]).1 = .ok [v] := by
+  simp [evalList, eval, h]
 
 /-! ## 6. the full statements (not proved in general; see DESIGN.md C17 and known findings F20/F27) -/
 
@@ -219,10 +317,41 @@ it was frozen; the unfrozen twin sees the reassignment -/
 example :
     (runProgram 60 (.seq [
         .declare (.ident "o") (.int 5),
-        .declare (.ident "h") (.freeze (.lambda [.mk "a" none false] (.op "+" (.ident "a") (.ident "o")))),
-        .declare (.ident "g") (.lambda [.mk "a" none false] (.op "+" (.ident "a") (.ident "o"))),
+        .declare (.ident "h") (.freeze (.lambda [.mk "a" none false none] (.op "+" (.ident "a") (.ident "o")))),
+        .declare (.ident "g") (.lambda [.mk "a" none false none] (.op "+" (.ident "a") (.ident "o"))),
         .assign "o" (.int 50),
         .list [.call (.ident "h") [.int 1], .call (.ident "g") [.int 1]]] false)).1
       matches .val (.list [.int 6, .int 51]) := by decide +kernel
+
+/-- the same for a parameter TYPE ANNOTATION (seeded change C17-a2): `ty := int; h := freeze \x: ty -> x + 1;
+g := \x: ty -> x + 1; ty = str; [h(3), try g(3) catch _ -> "E"]` — the frozen function still accepts the
+integer, its unfrozen twin now demands a string and raises -/
+example :
+    (runProgram 60 (.seq [
+        .declare (.ident "ty") (.ident "int"),
+        .declare (.ident "h") (.freeze (.lambda [.mk "x" none false (some (.ident "ty"))] (.op "+" (.ident "x") (.int 1)))),
+        .declare (.ident "g") (.lambda [.mk "x" none false (some (.ident "ty"))] (.op "+" (.ident "x") (.int 1))),
+        .assign "ty" (.ident "str"),
+        .list [.call (.ident "h") [.int 3], .try_ (.call (.ident "g") [.int 3]) .underscore (.str "E")]] false)).1
+      matches .val (.list [.int 4, .str "E"]) := by decide +kernel
+
+/-- an unknown name in a parameter annotation fails AT the freeze, the function is never made:
+`ok := 1; try (f := freeze \x: nosuchtype -> x) catch _ -> (ok = 0); ok` -/
+example :
+    (runProgram 60 (.seq [
+        .declare (.ident "ok") (.int 1),
+        .try_ (.declare (.ident "f") (.freeze (.lambda [.mk "x" none false (some (.ident "nosuchtype"))] (.ident "x"))))
+          .underscore (.assign "ok" (.int 0)),
+        .ident "ok"] false)).1
+      matches .val (.int 0) := by decide +kernel
+
+/-- …whereas the unfrozen lambda is made without complaint (the annotation is only looked at by a call) -/
+example :
+    (runProgram 60 (.seq [
+        .declare (.ident "ok") (.int 1),
+        .try_ (.declare (.ident "f") (.lambda [.mk "x" none false (some (.ident "nosuchtype"))] (.ident "x")))
+          .underscore (.assign "ok" (.int 0)),
+        .ident "ok"] false)).1
+      matches .val (.int 1) := by decide +kernel
 
 end Noulith.C17
